@@ -4,6 +4,8 @@ from vx.props import common
 from vx.units import instance_ops as io, evaluate as ev, fn_stubs
 
 
+from vx.units import validate as va
+
 def build(asm, tier):
     asm.raw(common.HEADER)
     asm.raw('pub mod lib {\n' + common.LIB_USES)
@@ -24,16 +26,19 @@ pub open spec fn cfun(c: v1::Constraint) -> v1::Function { match c.function { So
     asm.file('spec/c12_spec.rs')
     asm.file('spec/penalty_spec.rs')
     asm.raw('} // mod lib\npub mod units {\n' + common.UNITS_USES + 'broadcast use super::lib::ax_zero_f64, super::lib::lemma_pen_obj_push, super::lib::lemma_pen_steps_push;\n')
-    asm.raw(fn_stubs.ADD + fn_stubs.MUL + fn_stubs.PARMUL + fn_stubs.ZERO + io.defined_ids_stub(), 'assumed callee contracts')
+    asm.raw(fn_stubs.ADD + fn_stubs.MUL + fn_stubs.PARMUL + fn_stubs.ZERO, 'assumed callee contracts')
     for n, where in (('Add for Function', 'C02 (same preconditions: oneofs set, fn_coo_ok); purity naming r == fn_add(..) is assumed'),
                      ('Mul for Function', 'C02 (same preconditions); purity naming r == fn_mul(..) is assumed'),
                      ('Mul<Function> for &Parameter', 'assumed here (macro instance impl_mul_parameter!(Function) = Linear::from(&p) * f, with the remainder named pmul_rem); exercised by the bounded stand-in'),
                      ('Function::zero', 'C02')):
         asm.stubs.append(dict(unit=n, proved_in=where))
-    asm.stubs.append(dict(unit='Instance::defined_ids', proved_in='C08'))
     for u in (ev.instance_objective(), ev.constraint_function(), io.penalty_method(), io.uniform_penalty_method()):
         asm.unit(u)
     asm.raw('} // mod units\n')
+    # Instance::defined_ids in a module of its own: the broadcast membership lemma stays out of the other units' contexts
+    asm.raw('pub mod dunits {\n' + common.UNITS_USES + 'broadcast use super::lib::lemma_dv_ids_mem_b;\n')
+    asm.unit(va.defined_ids())
+    asm.raw('} // mod dunits\n')
     asm.guard(common.guard_fn('c09', 'broadcast use ax_zero_f64;', uses='use super::lib::*;'), 'vacuity: axioms')
     asm.guard('''pub mod guard_c09b { use vstd::prelude::*; use super::lib::*;
 proof fn vacuity_pre(f: v1::Function, cs: Seq<v1::Constraint>, ps: Seq<v1::Parameter>, m: Map<u64, F64>) requires cs.len() == 2, ps.len() == 2, fn_fin(f), cs_fin(cs), pen_steps_ok(f, cs, ps, 2) { assert(false); }
@@ -44,7 +49,7 @@ proof fn vacuity_pre(f: v1::Function, cs: Seq<v1::Constraint>, ps: Seq<v1::Param
         composes_with={'C02': '*'},      # the Function operators used here are the contracts proved in C02
         min_items=6,
         trusted_base=common.TRUSTED_COMMON + common.T4_COLLECTIONS + [
-            'T5 ASSUMED callee contracts (dispatch layer decided in C02): Function + Function, Function * Function, &Parameter * Function are pure and compute sum / product up to an explicit epsilon-drop remainder; Function::zero; Instance::defined_ids',
+            'T5 ASSUMED callee contracts (dispatch layer decided in C02): Function + Function, Function * Function, &Parameter * Function are pure and compute sum / product up to an explicit epsilon-drop remainder; Function::zero (Instance::defined_ids is a verified unit of this check)',
             'T4: Vec::into_iter().enumerate() (helper enumerate_vec), BTreeSet::last, Option::map over an annotated closure, maplit::hashmap! with one entry, u64::to_string',
             'R21: `&parameter * f.clone() * f` rewritten to the UFCS call of `impl Mul<Function> for &Parameter` (Verus mis-resolves operators on reference receivers)',
         ],
